@@ -386,7 +386,8 @@ func exec(t []string) string {
 		if err := e.cur.RollbackTo(k); err != nil {
 			return status(e.cur) + " err"
 		}
-		fresh := &env{base: e.base, voteTxs: map[int]interfaces.Transaction{}, arbs: e.arbs}
+		// one vote-transaction table per chain (looked up by hash), shared by every instance
+		fresh := &env{base: e.base, voteTxs: e.voteTxs, arbs: e.arbs}
 		fresh.cur = newState(fresh)
 		var keep []blockDesc
 		for _, b := range e.blocks {
@@ -396,7 +397,6 @@ func exec(t []string) string {
 			}
 		}
 		e.blocks = keep
-		e.voteTxs = fresh.voteTxs
 		a, b := fieldDump(e.cur), fieldDump(fresh.cur)
 		leafs := map[string]bool{}
 		lastDiff = map[string][2]string{}
